@@ -499,6 +499,42 @@ MUTATIONS = [
      "gen_inverse_eq"),
     ("inverse: unwrap_or(one) -> unwrap_or(zero)", "mul.rs", ".unwrap_or(V::one())", ".unwrap_or(V::zero())",
      "gen_inverse_eq"),
+    # repair 9ec2d8b: clamps of the rounding residue in deduce_of (u and every b[y]) and inverse (every b[x])
+    ("deduce_of clamp: u `<` -> `>`", "mul.rs",
+     "let u = if u < V::zero() { V::zero() } else { u };", "let u = if u > V::zero() { V::zero() } else { u };",
+     "gen_deduce_of_eq"),
+    ("deduce_of clamp: u clamp removed", "mul.rs",
+     "    let u = if u < V::zero() { V::zero() } else { u };\n", "", "gen_deduce_of_eq"),
+    ("deduce_of clamp: u clamped to one instead of zero", "mul.rs",
+     "let u = if u < V::zero() { V::zero() } else { u };", "let u = if u < V::zero() { V::one() } else { u };",
+     "gen_deduce_of_eq"),
+    ("deduce_of clamp: u branches swapped", "mul.rs",
+     "let u = if u < V::zero() { V::zero() } else { u };", "let u = if u < V::zero() { u } else { V::zero() };",
+     "gen_deduce_of_eq"),
+    ("deduce_of clamp: b `<` -> `>`", "mul.rs",
+     "- ay[y] * u;\n        if b < V::zero() {", "- ay[y] * u;\n        if b > V::zero() {", "gen_deduce_of_eq"),
+    ("deduce_of clamp: b `<` -> `<=`", "mul.rs",
+     "- ay[y] * u;\n        if b < V::zero() {", "- ay[y] * u;\n        if b <= V::zero() {", "gen_deduce_of_eq"),
+    ("deduce_of clamp: b clamp removed", "mul.rs",
+     "- ay[y] * u;\n        if b < V::zero() {\n            V::zero()\n        } else {\n            b\n        }\n",
+     "- ay[y] * u;\n        b\n", "gen_deduce_of_eq"),
+    ("deduce_of clamp: b clamped to one instead of zero", "mul.rs",
+     "- ay[y] * u;\n        if b < V::zero() {\n            V::zero()", "- ay[y] * u;\n        if b < V::zero() {\n            V::one()",
+     "gen_deduce_of_eq"),
+    ("inverse clamp: b `<` -> `>`", "mul.rs",
+     "- u * ax[x];\n                if b < V::zero() {", "- u * ax[x];\n                if b > V::zero() {", "gen_inverse_eq"),
+    ("inverse clamp: b clamp removed", "mul.rs",
+     "- u * ax[x];\n                if b < V::zero() {\n                    V::zero()\n                } else {\n"
+     "                    b\n                }\n",
+     "- u * ax[x];\n                b\n", "gen_inverse_eq"),
+    ("inverse clamp: b clamped to one instead of zero", "mul.rs",
+     "- u * ax[x];\n                if b < V::zero() {\n                    V::zero()",
+     "- u * ax[x];\n                if b < V::zero() {\n                    V::one()", "gen_inverse_eq"),
+    ("inverse clamp: compares u instead of b", "mul.rs",
+     "- u * ax[x];\n                if b < V::zero() {", "- u * ax[x];\n                if u < V::zero() {", "gen_inverse_eq"),
+    ("deduce_of clamp: shape outside the subset (`let u = match ..`) => hole", "mul.rs",
+     "let u = if u < V::zero() { V::zero() } else { u };", "let u = match u < V::zero() { true => V::zero(), false => u };",
+     ("file", 3, {"gen_deduce_of_eq"}, {"gen_inverse_eq", "gen_mbr_eq"})),
     ("inverse: syntax outside the subset (.rev())", "mul.rs",
      "let u_yx_sum = T::indexes().map(|x| u_yx[x]).sum::<V>();",
      "let u_yx_sum = T::indexes().rev().map(|x| u_yx[x]).sum::<V>();",
